@@ -98,10 +98,9 @@ def _simples_by_length(perms, nmax):
 
 
 def _cli(arg):
-    buf = io.StringIO()
-    with contextlib.redirect_stdout(buf):
-        pcli.has_finitely_many_simples(argparse.Namespace(basis=arg))
-    return buf.getvalue()
+    from ..lib import run_cli
+
+    return run_cli(["simple", arg])
 
 
 def check_basis(case):
